@@ -292,9 +292,10 @@ Qed.
 Lemma register_ack_infl dl o pkid o' ok :
   register_ack o pkid = (o', ok) -> Forall (InflOk dl) (o_inflight o) -> Forall (InflOk dl) (o_inflight o').
 Proof.
-  unfold register_ack. destruct (o_inflight o) as [|[[h fi] c] r] eqn:E; intros H Hf; inv_ok.
-  - now rewrite E.
+  unfold register_ack. destruct (o_inflight o) as [|[[h fi] c] r] eqn:E; intros H Hf; [inv_ok; now rewrite E|].
+  destruct (pkid =? h); inv_ok.
   - cbn [set_o_inflight o_inflight]. now inversion Hf.
+  - now rewrite E.
 Qed.
 
 Lemma cinv_obuf st id o : CInv st -> slab_get (r_obufs st) id = Some o -> Forall (InflOk (r_datalog st)) (o_inflight o).
@@ -360,7 +361,7 @@ Proof.
     destruct (register_pubcomp o pkid) as [o' ok] eqn:Er.
     assert (HI1 : CInv (put_obuf st id o')).
     { apply cinv_put_obuf; [exact HI|]. unfold register_pubcomp in Er.
-      destruct (o_pubrels o); inv_ok; cbn [set_o_pubrels o_inflight]; eapply cinv_obuf; eassumption. }
+      destruct (o_pubrels o) as [|h0 r0]; [|destruct (pkid =? h0)]; inv_ok; cbn [set_o_pubrels o_inflight]; eapply cinv_obuf; eassumption. }
     destruct ok; inv_ok; (split; [exact HI1|apply dl_le_refl]).
   - apply bind_ok in H as (st1 & H1 & H). inv_ok. rewrite (commit_ack_dl _ _ _ _ H1).
     split; [eapply commit_ack_cinv; eassumption|apply dl_le_refl].
